@@ -410,7 +410,7 @@ def h_recipients(ctx):
             recs.append(r)
         return JTok("general", rjwe.encrypt({"enc": enc}, pt, recs, form="general", rand=rjwe.Drbg(seed)))
     base = build(PLAINTEXT, repr((mix, enc)).encode())
-    mode = ctx.choose("mode", ["tamper-subset", "foreign-cek-entry"])
+    mode = ctx.choose("mode", ["tamper-subset", "foreign-cek-entry", "unresolvable-entry"])
     verify_all = ctx.choose("verify_all_recipients", [True, False])
     tok = base.clone()
     privs = [A.jkey({**scen.key(MULTI_KINDS[i][1], j), "kid": f"r{j}"}, "dict") for j, i in enumerate(mix)]
@@ -429,6 +429,15 @@ def h_recipients(ctx):
         intact = n - len(subset)
         expect_ok = (verify_all and not subset) or ((not verify_all) and intact >= 1)
         desc = f"recipients {list(subset)} tampered ({how}), verify_all={verify_all}"
+    elif mode == "unresolvable-entry":
+        j = ctx.choose("entry", range(n))
+        how = ctx.choose("how", ["kid-renamed", "extra-entry-unknown-kid-garbage-key"])
+        if how == "kid-renamed":
+            tok.recipients[j]["header"]["kid"] = "nobody"
+        else:
+            tok.recipients.insert(j, {"header": {"alg": MULTI_KINDS[mix[j]][0], "kid": "nobody"}, "ek": bytes(range(40))})
+        expect_ok = None
+        desc = f"recipient entry {j}: {how} (a kid the key set does not hold), verify_all={verify_all}"
     else:
         j = ctx.choose("entry", range(n))
         other = build(b'{"iss":"eve"}', b"other" + repr((mix, enc)).encode())
@@ -446,6 +455,9 @@ def h_recipients(ctx):
             vs.append(viol(f"multi-recipient JWE rejected although the recipient rule is satisfied [verify_all={verify_all}]", f"{names} enc={enc}: {desc}: {r.exc!r}"))
         if not expect_ok and r.ok:
             vs.append(viol(f"multi-recipient JWE accepted although a recipient is tampered [verify_all={verify_all}]", f"{names} enc={enc}: {desc}"))
+    elif mode == "unresolvable-entry":
+        if verify_all and r.ok:
+            vs.append(viol("a recipient whose key cannot be resolved is skipped under all-recipient validation", f"{names} enc={enc}: {desc}"))
     else:
         if verify_all and r.ok:
             vs.append(viol("recipients yielding different content keys are accepted under all-recipient validation", f"{names} enc={enc}: {desc}"))
